@@ -40,8 +40,12 @@ def prepare_work():
         return
     os.makedirs(WORK, exist_ok=True)
     for d in ("coq", "ocaml"):
-        subprocess.run(["rsync", "-a", "--delete", "--exclude", "Cases/", "--exclude", "Generated/*",
+        subprocess.run(["rsync", "-a", "--delete", "--exclude", "Cases/", "--exclude", "Generated/*", "--exclude", ".stamp",
                         os.path.join(VERIF, d) + "/", os.path.join(WORK, d) + "/"], check=True)
+    # model runners are always rebuilt from this work directory's own Generated files
+    shutil.rmtree(os.path.join(WORK, "bin"), ignore_errors=True)
+    for st in glob.glob(os.path.join(WORK, "ocaml", "*", ".stamp")):
+        os.remove(st)
     os.makedirs(os.path.join(WORK, "coq", "Generated"), exist_ok=True)
 NPROC = int(os.environ.get("VERIF_JOBS", "16"))
 
